@@ -71,6 +71,8 @@ type DatabaseI interface {
 type compactionAction struct {
 	pathsToCompact []string
 	totalRecords   uint64
+	// includesOldestTable tells whether the oldest table is part of the selection, only then tombstones can be dropped
+	includesOldestTable bool
 }
 
 type memStoreFlushAction struct {
